@@ -522,9 +522,12 @@ static std::set<std::string> g_dead;     // culprits / tags that crashed repeate
 
 static std::string culprit_or_tag(const Call& c) { return !c.must.empty() ? c.must : (c.tag.empty() ? std::string("-") : c.tag); }
 // what is skipped after repeated crashes: x86 calls naming the same unrepresentable component; otherwise the very same call
-static std::string dead_key(ArchK arch, const Call& c) {
-  if (!c.must.empty()) return std::string(kArchName[arch]) + "|" + (arch == AA64 ? c.must + "|" + c.tag : c.must);
-  std::string k = std::string(kArchName[arch]) + "|" + c.tag + "|" + num(c.id) + "|" + num(c.opt);
+static std::string dead_key(const Cfg& cfg, const Call& c) {
+  // per emitter; for the Assembler also per handler kind (a throwing handler can die differently: std::terminate)
+  ArchK arch = cfg.arch;
+  std::string pre = std::string(kArchName[arch]) + "|" + kEmName[cfg.ek] + "|" + (cfg.ek == EASM ? kHdName[cfg.hk] : "-") + "|";
+  if (!c.must.empty()) return pre + (arch == AA64 ? c.must + "|" + c.tag : c.must);
+  std::string k = pre + c.tag + "|" + num(c.id) + "|" + num(c.opt);
   for (int i = 0; i < c.nops; i++) k += "|" + ser_op(c.ops[i]);
   return k + "|" + num(c.a0) + "|" + num(c.a1) + "|" + num(c.a2);
 }
@@ -589,7 +592,7 @@ static bool run_history(const Cfg& cfg, const std::vector<Call>& calls, const st
   for (size_t i = 0; i < calls.size(); i++) {
     if (!run[i]) continue;
     const Call& c = calls[i];
-    if (judge && !g_dead.empty() && g_dead.count(dead_key(cfg.arch, c))) { ur.cnt["skipped_after_repeated_crash"]++; continue; }
+    if (judge && !g_dead.empty() && g_dead.count(dead_key(cfg, c))) { ur.cnt["skipped_after_repeated_crash"]++; continue; }
     mark(phase, int(i));
     if (judge) take_snap(e, s0);
     int h0 = e.eh.count;
@@ -878,6 +881,8 @@ struct Gen {
   long long idx = 0;
   std::function<void(Unit&)> sink;
   bool want() { bool m = vh::ctx().mine(idx); idx++; return m; }
+  // units of one configuration go to one shard: a defect that kills the process is met (and its culprit retired) once, not once per shard
+  bool want_cfg(long long cfg_key) { idx++; return vh::ctx().mine(cfg_key); }
 };
 
 static const uint32_t kWeirdIds[] = {0xFFFFu, 0xFFFFFFFFu, 0x80000001u};
@@ -904,7 +909,8 @@ static void gen_x86(Gen& g, bool thorough) {
         Unit u; u.cfg.arch = arch; u.cfg.ek = EASM; u.cfg.hk = hk; u.cfg.logger = (row % 5) == 0; u.group = "x86:all-ids";
         u.calls.push_back(x86_inst(arch, EASM, id, {}));
         for (size_t i = 0; i < NW; i++) u.calls.push_back(x86_inst(arch, EASM, id, {&W[i].op}));
-        if (hk == HREC) {
+        bool is_rep = std::binary_search(reps.begin(), reps.end(), id);
+        if (hk == HREC && (thorough || is_rep || (id % 4) == 0 || id >= uint32_t(x86::Inst::_kIdCount))) {
           for (size_t i = 1; i < NW; i++) u.calls.push_back(x86_inst(arch, EASM, id, {&W[i].op, &W[i].op}));
           for (size_t i = 1; i < NW; i++) u.calls.push_back(x86_inst(arch, EASM, id, {&o_eax, &W[i].op}));
           if (thorough) for (size_t i = 1; i < NW; i++) u.calls.push_back(x86_inst(arch, EASM, id, {&W[i].op, &o_eax}));
@@ -921,6 +927,7 @@ static void gen_x86(Gen& g, bool thorough) {
         if (!thorough && id >= 3 && id < uint32_t(x86::Inst::_kIdCount) && std::find(reps.begin(), reps.end(), id) == reps.end()) continue;
         for (size_t i = 0; i < NW; i++) {
           row++;
+          if (!thorough && ((i + id) % 3) != 0) continue;      // quick: a third of W per id (rotating)
           if (!g.want()) continue;
           Unit u; u.cfg.arch = arch; u.cfg.ek = ek; u.cfg.hk = HdK(row % 3); u.group = "x86:builder-1op";
           u.calls.push_back(x86_inst(arch, ek, id, {&W[i].op}));
@@ -930,6 +937,7 @@ static void gen_x86(Gen& g, bool thorough) {
       for (uint32_t id : reps) {
         for (size_t i = 1; i < NW; i++) {
           row++;
+          if (!thorough && ((i + id) % 6) != 0) continue;      // quick: a sixth of W per id (rotating)
           if (!g.want()) continue;
           Unit u; u.cfg.arch = arch; u.cfg.ek = ek; u.cfg.hk = HdK(row % 3); u.group = "x86:builder-2op";
           u.calls.push_back(x86_inst(arch, ek, id, {&o_eax, &W[i].op}));
@@ -946,6 +954,7 @@ static void gen_x86(Gen& g, bool thorough) {
     for (uint32_t id : wxw) {
       for (size_t i = 0; i < NW; i++) {
         row++;
+        if (!thorough && ((i + id) % 4) != 0) continue;        // quick: a quarter of the first operands per id (rotating); thorough: all, for every id
         if (!g.want()) continue;
         Unit u; u.cfg.arch = arch; u.cfg.ek = EASM; u.cfg.hk = HdK(row % 3); u.cfg.logger = (row % 7) == 0; u.group = "x86:WxW";
         for (size_t j = 0; j < NW; j++) u.calls.push_back(x86_inst(arch, EASM, id, {&W[i].op, &W[j].op}));
@@ -1002,7 +1011,7 @@ static void gen_x86(Gen& g, bool thorough) {
           }
         }
         if (ek == EASM) g.sink(u);
-        else for (auto& c : u.calls) { Unit v; v.cfg = u.cfg; v.group = u.group; v.calls.push_back(c); g.sink(v); }
+        else { size_t k = 0; for (auto& c : u.calls) { if (!thorough && ((k++ + id) % 3) != 0) continue; Unit v; v.cfg = u.cfg; v.group = u.group; v.calls.push_back(c); g.sink(v); } }
       }
     }
     // (5) thorough: W x W x {w} diagonal third operand for representatives (first per class)
@@ -1233,7 +1242,7 @@ static void gen_a64(Gen& g, bool thorough) {
         std::vector<int64_t> dflt; for (auto& f : t.fields) dflt.push_back(f.dflt);
         std::vector<std::vector<FVal>> alph; for (auto& f : t.fields) alph.push_back(field_alphabet(f, ek));
         auto emit1 = [&](const Call& c) {
-          if (!g.want()) return;
+          if (!g.want_cfg(100 + int(ek) * 3 + int(hk))) return;
           Unit u; u.cfg.arch = AA64; u.cfg.ek = ek; u.cfg.hk = hk; u.cfg.logger = ek == EASM && hk == HREC && (g.idx % 4) == 0; u.group = "a64:fields";
           u.calls.push_back(c); g.sink(u);
         };
@@ -1261,7 +1270,7 @@ static void gen_a64(Gen& g, bool thorough) {
         if (t.id != a64::Inst::kIdB) emit1(a64_call(t, dflt, "condition-code-on-unconditional-instruction", int64_t(BaseInst::compose_arm_inst_id(t.id, arm::CondCode::kEQ))));
       }
       // b.<cond> label with every condition
-      if (g.want()) {
+      if (g.want_cfg(100 + int(ek) * 3 + int(hk))) {
         Unit u; u.cfg.arch = AA64; u.cfg.ek = ek; u.cfg.hk = hk; u.group = "a64:fields";
         for (uint32_t cc = 0; cc < 16; cc++) for (uint32_t l : {0u, 1u, 12345u}) {
           Call c; c.kind = 'I'; c.id = BaseInst::compose_arm_inst_id(a64::Inst::kIdB, arm::CondCode(cc)); c.nops = 1; c.ops[0] = Label(l); c.tag = "b.cond label"; if (l > 2) c.must = "label-invalid";
@@ -1341,7 +1350,10 @@ static std::vector<Call> weird_misc_calls(ArchK arch) {
   const uint64_t GLOBAL = uint64_t(LabelType::kGlobal), LOCAL = uint64_t(LabelType::kLocal), ANON = uint64_t(LabelType::kAnonymous), EXT = uint64_t(LabelType::kExternal);
   x.push_back(misc('N', 1, GLOBAL, INV)); x.push_back(misc('N', 1, LOCAL, 0)); x.push_back(misc('N', 1, ANON, INV)); x.push_back(misc('N', 0, ANON, INV)); x.push_back(misc('N', 1, EXT, INV));
   x.push_back(misc('N', 0, GLOBAL, INV)); x.push_back(misc('N', 2, GLOBAL, INV)); x.push_back(misc('N', 3, GLOBAL, INV, "duplicate-label-name"));
-  x.push_back(misc('N', 1, GLOBAL, 0)); x.push_back(misc('N', 1, LOCAL, 12345, "parent-label-invalid")); x.push_back(misc('N', 1, LOCAL, INV, "parent-label-invalid"));
+  x.push_back(misc('N', 1, GLOBAL, 0)); x.push_back(misc('N', 1, LOCAL, 12345, "parent-label-invalid"));
+  // boundary parents: the environment owns labels 0..2, a preceding new_label()/new_named_label() adds one more.
+  // parent 4 never exists; parent 3 exists only behind a call that created a label (gen_misc adds the must-reject then)
+  x.push_back(misc('N', 1, LOCAL, 4, "parent-label-invalid")); x.push_back(misc('N', 1, LOCAL, 3)); x.push_back(misc('N', 1, LOCAL, 2)); x.push_back(misc('N', 1, LOCAL, INV, "parent-label-invalid"));
   x.push_back(misc('N', 1, 77, INV, "label-type-invalid")); x.push_back(misc('N', 1, ANON, 0)); x.push_back(misc('N', 2, LOCAL, 0));
   // a few invalid instructions as the middle step
   Call i; i.kind = 'I';
@@ -1362,19 +1374,24 @@ static void gen_misc(Gen& g, bool thorough) {
   for (ArchK arch : {AX86, AX64, AA64}) {
     std::vector<Call> V = valid_calls(arch), X = weird_misc_calls(arch);
     for (EmK ek : {EASM, EBUILDER, ECOMPILER}) for (HdK hk : {HREC, HTHROW, HNONE}) {
+      long long ck = (long long)(int(arch) * 9 + int(ek) * 3 + int(hk));
       for (size_t x = 0; x < X.size(); x++) for (size_t a = 0; a < V.size(); a++) for (size_t b = 0; b < V.size(); b++) {
-        if (!g.want()) continue;
+        if (!thorough && b != (a + x) % V.size()) continue;    // quick: every X with every valid predecessor, the successor rotates
+        if (!g.want_cfg(ck)) continue;
         Unit u; u.cfg.arch = arch; u.cfg.ek = ek; u.cfg.hk = hk; u.cfg.logger = ((x + a + b) % 5) == 0; u.group = "misc:3-step";
         u.calls.push_back(V[a]); u.calls.push_back(X[x]); u.calls.push_back(V[b]);
+        if (X[x].kind == 'N' && X[x].a1 == uint64_t(LabelType::kLocal) && X[x].a2 == 3 && V[a].kind != 'n') u.calls[1].must = "parent-label-invalid";   // parent id == label_count()
         g.sink(u);
       }
       // the call alone, and two weird calls in a row (thorough: all pairs)
       for (size_t x = 0; x < X.size(); x++) {
-        if (g.want()) { Unit u; u.cfg.arch = arch; u.cfg.ek = ek; u.cfg.hk = hk; u.group = "misc:alone"; u.calls.push_back(X[x]); g.sink(u); }
+        if (g.want_cfg(ck)) { Unit u; u.cfg.arch = arch; u.cfg.ek = ek; u.cfg.hk = hk; u.group = "misc:alone"; u.calls.push_back(X[x]);
+          if (X[x].kind == 'N' && X[x].a1 == uint64_t(LabelType::kLocal) && X[x].a2 == 3) u.calls[0].must = "parent-label-invalid";
+          g.sink(u); }
         for (size_t y = 0; y < X.size(); y++) {
           if (ek != EASM) break;        // Builder/Compiler: one weird call per history (errors may surface in finalize: exact attribution)
-          if (!thorough && ((x * 7 + y) % 6) != 0) continue;
-          if (!g.want()) continue;
+          if (!thorough && ((x * 7 + y) % 18) != 0) continue;
+          if (!g.want_cfg(ck)) continue;
           Unit u; u.cfg.arch = arch; u.cfg.ek = ek; u.cfg.hk = hk; u.group = "misc:pairs"; u.calls.push_back(X[x]); u.calls.push_back(X[y]); u.calls.push_back(V[0]); g.sink(u);
         }
       }
@@ -1445,7 +1462,7 @@ static void child_run(const std::vector<Unit>& batch, size_t from, const std::ma
   for (size_t k = from; k < batch.size(); k++) {
     const Unit& u = batch[k];
     g_sh->unit = long(k); g_sh->call = -1; g_sh->phase = 0;
-    { struct itimerval tv; memset(&tv, 0, sizeof tv); tv.it_value.tv_sec = long(u.calls.size() / 400); tv.it_value.tv_usec = 700000; setitimer(ITIMER_VIRTUAL, &tv, nullptr); }   // watchdog in CPU time: a unit is milliseconds of work; SIGVTALRM ends a hang, the parent attributes it
+    { struct itimerval tv; memset(&tv, 0, sizeof tv); tv.it_value.tv_sec = long(u.calls.size() / 1000); tv.it_value.tv_usec = 300000; setitimer(ITIMER_VIRTUAL, &tv, nullptr); }   // watchdog in CPU time: a unit is milliseconds of work; SIGVTALRM ends a hang, the parent attributes it
     ur.clear();
     static const std::set<int> none;
     auto it = skips.find(long(k));
@@ -1521,8 +1538,8 @@ static void run_batch(const std::vector<Unit>& batch) {
       std::string key = vkey(u.cfg, cc, "ub-crash", (hang ? "hang:" : "") + cot);
       c.violation(key, "process died (" + how + ") inside the call :: " + u.cfg.str() + " :: " + desc_call(u.cfg.arch, cc), ser_unit(u.cfg, {cc}));
       skips[ku].insert(kc);
-      std::string dk = dead_key(u.cfg.arch, cc);
-      if (++g_par.crash_count[dk] >= 2) g_dead.insert(dk);
+      std::string dk = dead_key(u.cfg, cc);
+      if (++g_par.crash_count[dk] >= (hang ? 1 : 2)) g_dead.insert(dk);
     } else {
       Call none; none.kind = u.calls.empty() ? 'I' : u.calls[0].kind;
       std::string cot = "-";
@@ -1532,7 +1549,7 @@ static void run_batch(const std::vector<Unit>& batch) {
       if (!u.calls.empty()) {
         const Call* cul = &u.calls[0];
         for (auto& cc : u.calls) if (!cc.must.empty()) { cul = &cc; break; }
-        std::string dk = dead_key(u.cfg.arch, *cul); if (++g_par.crash_count[dk] >= 2) g_dead.insert(dk);
+        std::string dk = dead_key(u.cfg, *cul); if (++g_par.crash_count[dk] >= (hang ? 1 : 2)) g_dead.insert(dk);
       }
     }
     c.n("crashes")++;
@@ -1584,7 +1601,7 @@ int main(int argc, char** argv) {
   c.n("states") = c.n("units");
   c.n("transitions") = c.n("evaluations");
   c.strs["bound"] = thorough ? "x86: W x W for every instruction id, W x W x {w,imm} for 1 id per encoding class, options/extra-reg/3..6 operands for 3 ids per class, all ids x 3 handlers; a64: <=2 perturbed fields; misc: all pairs"
-                             : "x86: W x W for 1 id per encoding class; a64: <=1 perturbed field; misc: 3-step histories + 1/6 of the pairs";
+                             : "x86: all ids x 1-operand W, 2-3 operand patterns for every 4th id, a rotating quarter of W x W for 1 id per encoding class, a rotating 1/3..1/6 of the Builder/Compiler units; a64: <=1 perturbed field; misc: valid,X,valid for every X and every valid predecessor (successor rotating) + 1/18 of the pairs";
   c.strs["rule"] = "units = short call histories on a fresh real emitter, arch{x86-32,x64,a64} x {Assembler,Builder,Compiler} x handler{none,recording,throwing}. "
                    "x86 (strict validation): every inst id (0..count+1,0xFFFF,0xFFFFFFFF,0x80000001) x every 1-operand tuple over the weird-operand alphabet W (registers of every type x boundary ids incl. virtual, "
                    "memory with every base/index type, labels valid/unbound/invalid, segments, shifts, broadcasts, extreme/absolute offsets, sizes, immediates), diagonal and (valid,w)/(w,valid) 2-3 operand tuples for all ids, "
@@ -1594,7 +1611,7 @@ int main(int argc, char** argv) {
                    "Oracle per failing call: handler exactly once with the returned code and the emitter as origin, sections/labels/fixups/relocations/nodes unchanged, one-shot state cleared; per unit: identical final image "
                    "(probe program appended) as a fresh emitter given only the accepted calls; unrepresentable components must not be accepted; Builder/Compiler output == Assembler output; ASan/UBSan silent.";
   c.assumptions.push_back("finite value alphabets: ids/offsets/immediates outside the listed boundary values are not explored; x86 W x W only for one (thorough: three) instruction(s) per encoding class");
-  c.assumptions.push_back("after 2 crashes caused by the same operand (culprit) in a shard, further calls naming that culprit are skipped (counter skipped_after_repeated_crash)");
+  c.assumptions.push_back("after 2 crashes caused by the same unrepresentable component (per arch, emitter and - for the Assembler - handler kind) in a shard, further calls naming that component are skipped (counter skipped_after_repeated_crash)");
   if (g_par.selfcheck_failed) { vh::finish(); fprintf(stderr, "c14: harness self-check failed (see notes)\n"); return 2; }
   return vh::finish();
 }
